@@ -9,6 +9,14 @@
 //! with protection made under the wrong endpoint's keys, and with broken
 //! prefix/body/postfix sequences. What reached each reader's TopicCache and the
 //! ack-nack channel is compared with a decision table written from the property.
+//!
+//! Scenario 1 starts one step earlier, at the governance document: the generated
+//! protection requirements are written as a governance document (signed with the
+//! shipped Permissions CA like C18's), loaded by the real AccessControlBuiltin, and
+//! the attributes *it* derives are (a) compared with the DDS-Security mapping
+//! (protection kind -> protected / encrypted / origin authenticated, tables of
+//! 9.4.1.2.6 and 7.4.8 for the secure built-in topics) and (b) used to configure
+//! the same rig, so that "the governance document requires ..." is the premise.
 
 use std::collections::{BTreeMap, BTreeSet};
 
@@ -18,6 +26,7 @@ use speedy::{Endianness, Writable};
 use super::{
   fnv, hooks,
   rig::{self, eid_bytes, CaseGuard, Node},
+  c18_access,
   sec_stubs::{pair_secret, StubAccess, StubAuth},
   wire, Choices, Outcome, Property, Scenario,
 };
@@ -25,7 +34,11 @@ use crate::{
   messages::submessages::submessage::AckSubmessage,
   rtps::{Message, Submessage},
   security::{
-    access_control::types::{EndpointSecurityAttributes, ParticipantSecurityAttributes, TopicSecurityAttributes},
+    access_control::{
+      access_control_builtin::AccessControlBuiltin,
+      access_control_plugin::{LocalEntityAccessControl, ParticipantAccessControl},
+      types::{EndpointSecurityAttributes, ParticipantSecurityAttributes, TopicSecurityAttributes},
+    },
     cryptographic::types::EncodedSubmessage,
     security_plugins::{SecurityPlugins, SecurityPluginsHandle},
     types::PluginSecurityAttributesMask,
@@ -63,6 +76,13 @@ pub fn property() -> Property {
       quick: 10_000,
       thorough: 1_000_000,
       max_len: 300,
+      max_threads: 0,
+    }, Scenario {
+      id: 1,
+      name: "the same, with the attributes derived from a signed governance document by the real access-control plugin",
+      quick: 1_500,
+      thorough: 60_000,
+      max_len: 340,
       max_threads: 0,
     }],
     run,
@@ -129,6 +149,209 @@ struct Ep {
   slot: usize,
 }
 
+// ---------------------------------------------------------------- from the governance document (scenario 1)
+
+const KIND_NAMES: [&str; 5] = ["NONE", "SIGN", "ENCRYPT", "SIGN_WITH_ORIGIN_AUTHENTICATION", "ENCRYPT_WITH_ORIGIN_AUTHENTICATION"];
+
+/// index into KIND_NAMES
+fn kind_of(p: Prot, origin_auth: bool) -> usize {
+  match (p, origin_auth) {
+    (Prot::None, _) => 0,
+    (Prot::Sign, false) => 1,
+    (Prot::Encrypt, false) => 2,
+    (Prot::Sign, true) => 3,
+    (Prot::Encrypt, true) => 4,
+  }
+}
+
+/// DDS-Security 1.1, 9.4.1.2.6: (protected, encrypted, origin authenticated) of a protection kind
+fn kind_means(k: usize) -> (bool, bool, bool) {
+  (k != 0, k == 2 || k == 4, k >= 3)
+}
+
+struct Governed {
+  participant: ParticipantSecurityAttributes,
+  /// per entry of `eps`
+  endpoints: Vec<EndpointSecurityAttributes>,
+}
+
+fn builtin_topic_of(e: &Ep) -> Option<&'static str> {
+  match e.name {
+    "spdp-reader" => Some("DCPSParticipant"),
+    "stateless-reader" => Some("DCPSParticipantStatelessMessage"),
+    "volatile-secure-reader" => Some("DCPSParticipantVolatileMessageSecure"),
+    "sedp-publications-reader" => Some("DCPSPublication"),
+    _ => None,
+  }
+}
+
+/// Writes the requirements as a governance document, has the real plugin load it and returns the
+/// attributes the plugin derives. A disagreement with the specification's mapping is a violation.
+fn governed(c: &mut Choices, rtps: Prot, eps: &[Ep], o: &mut Outcome, sample: &mut String) -> Option<Governed> {
+  let opposite = |k: usize| if k == 0 { 4 } else { 0 };
+  let rtps_kind = kind_of(rtps, c.chance(90));
+  let discovery_kind = c.pick(5);
+  let liveliness_kind = c.pick(5);
+  // per endpoint: (metadata kind, data kind 0..=2)
+  let kinds: Vec<(usize, usize)> = eps.iter().map(|e| (kind_of(e.sub, c.chance(90)), kind_of(e.payload, false))).collect();
+  let decoy_domain = c.chance(128);
+  let decoy_topic = c.chance(128);
+  let catch_all = c.chance(160);
+  let topic_rule = |pattern: &str, meta: usize, data: usize| {
+    format!(
+      "<topic_rule><topic_expression>{pattern}</topic_expression><enable_discovery_protection>false</enable_discovery_protection><enable_liveliness_protection>false</enable_liveliness_protection>\
+       <enable_read_access_control>false</enable_read_access_control><enable_write_access_control>false</enable_write_access_control>\
+       <metadata_protection_kind>{}</metadata_protection_kind><data_protection_kind>{}</data_protection_kind></topic_rule>\n",
+      KIND_NAMES[meta], KIND_NAMES[data]
+    )
+  };
+  let domain_rule = |domains: &str, disc: usize, live: usize, rtps: usize, topics: &str| {
+    format!(
+      "<domain_rule><domains>{domains}</domains>\n<allow_unauthenticated_participants>false</allow_unauthenticated_participants>\n<enable_join_access_control>false</enable_join_access_control>\n\
+       <discovery_protection_kind>{}</discovery_protection_kind>\n<liveliness_protection_kind>{}</liveliness_protection_kind>\n<rtps_protection_kind>{}</rtps_protection_kind>\n<topic_access_rules>\n{topics}</topic_access_rules>\n</domain_rule>\n",
+      KIND_NAMES[disc], KIND_NAMES[live], KIND_NAMES[rtps]
+    )
+  };
+  let mut topics = String::new();
+  if decoy_topic {
+    // a rule that matches none of the rig's topics, saying the opposite of the first endpoint
+    topics.push_str(&topic_rule("zz_*", opposite(kinds[0].0), if kinds[0].1 == 0 { 2 } else { 0 }));
+  }
+  for (e, (meta, data)) in eps.iter().zip(&kinds) {
+    if builtin_topic_of(e).is_none() {
+      topics.push_str(&topic_rule(&format!("c17_{}", e.name), *meta, *data));
+    }
+  }
+  if catch_all {
+    // must never be reached for the rig's topics: first matching rule wins
+    topics.push_str(&topic_rule("*", opposite(kinds[0].0), if kinds[0].1 == 0 { 2 } else { 0 }));
+  }
+  let mut xml = String::from("<?xml version=\"1.0\" encoding=\"UTF-8\"?>\n<dds>\n<domain_access_rules>\n");
+  if decoy_domain {
+    xml.push_str(&domain_rule("<id>9</id>", opposite(discovery_kind), opposite(liveliness_kind), opposite(rtps_kind), &topic_rule("*", opposite(kinds[0].0), 0)));
+  }
+  xml.push_str(&domain_rule("<id_range><min>0</min><max>3</max></id_range>", discovery_kind, liveliness_kind, rtps_kind, &topics));
+  xml.push_str("</domain_access_rules>\n</dds>\n");
+  let permissions = format!(
+    "<?xml version=\"1.0\" encoding=\"UTF-8\"?>\n<dds>\n<permissions>\n<grant name=\"g\">\n<subject_name>{}</subject_name>\n\
+     <validity><not_before>2001-01-01T00:00:00</not_before><not_after>2200-01-01T00:00:00</not_after></validity>\n\
+     <allow_rule><domains><id_range><min>0</min></id_range></domains><publish><topics><topic>*</topic></topics></publish><subscribe><topics><topic>*</topic></topics></subscribe></allow_rule>\n<default>ALLOW</default>\n</grant>\n</permissions>\n</dds>\n",
+    c18_access::ME
+  );
+  sample.push_str(&format!(
+    "governance: rtps={} discovery={} liveliness={} topics={:?} decoy_domain={decoy_domain} decoy_topic={decoy_topic} catch_all={catch_all} | ",
+    KIND_NAMES[rtps_kind],
+    KIND_NAMES[discovery_kind],
+    KIND_NAMES[liveliness_kind],
+    eps.iter().zip(&kinds).filter(|(e, _)| builtin_topic_of(e).is_none()).map(|(e, (m, d))| (e.name, KIND_NAMES[*m], KIND_NAMES[*d])).collect::<Vec<_>>()
+  ));
+  let ca = c18_access::shipped_ca();
+  let q = c18_access::qos(&c18_access::sign(&ca, &xml), &c18_access::sign(&ca, &permissions), c18_access::CA_CERT);
+  let mut ac = AccessControlBuiltin::new();
+  let auth = StubAuth { local: 1 };
+  let handle = match ac.validate_local_permissions(&auth, 1, 0, &q) {
+    Ok(h) => h,
+    Err(e) => {
+      o.violate("c17.governance-rejected", "load", format!("validly signed, well-formed governance / permissions documents were refused: {e:?}\n{xml}"));
+      return None;
+    }
+  };
+  let bits = |m: &PluginSecurityAttributesMask| m.0;
+  // ---- participant level
+  let pa = match ac.get_participant_sec_attributes(handle) {
+    Ok(a) => a,
+    Err(e) => {
+      o.violate("c17.governance-attributes", "participant:error", format!("get_participant_sec_attributes: {e:?}"));
+      return None;
+    }
+  };
+  let (rp, re, ro) = kind_means(rtps_kind);
+  let (dp, de, d_o) = kind_means(discovery_kind);
+  let (lp, le, lo) = kind_means(liveliness_kind);
+  // DDS-Security 1.1, 9.4.2.4: plugin participant attributes mask
+  let want_mask = 0x8000_0000u32 | (re as u32) | (de as u32) << 1 | (le as u32) << 2 | (ro as u32) << 3 | (d_o as u32) << 4 | (lo as u32) << 5;
+  let got = (pa.is_rtps_protected, pa.is_discovery_protected, pa.is_liveliness_protected, pa.is_access_protected, pa.allow_unauthenticated_participants, bits(&pa.plugin_participant_attributes));
+  let want = (rp, dp, lp, false, false, want_mask);
+  if got != want {
+    let which = if pa.is_rtps_protected != rp {
+      if rp { "rtps-protection-dropped" } else { "rtps-protection-invented" }
+    } else if (bits(&pa.plugin_participant_attributes) ^ want_mask) & 0b1001 != 0 {
+      "rtps-kind"
+    } else {
+      "discovery-liveliness-access"
+    };
+    o.violate(
+      "c17.governance-attributes",
+      &format!("participant:{which}"),
+      format!("governance says rtps={} discovery={} liveliness={} join=false unauthenticated=false; the plugin derives (rtps, discovery, liveliness, access, unauthenticated, mask) = {got:x?}, the specification's mapping gives {want:x?}", KIND_NAMES[rtps_kind], KIND_NAMES[discovery_kind], KIND_NAMES[liveliness_kind]),
+    );
+    return None;
+  }
+  // ---- endpoint level
+  let endpoint_want = |meta: usize, data: usize| {
+    let (sp, se, so) = kind_means(meta);
+    // 9.4.1.2.6.6: data protection ENCRYPT also protects the key; 9.4.2.6: endpoint mask
+    (sp, data != 0, data == 2, 0x8000_0000u32 | (se as u32) | ((data == 2) as u32) << 1 | (so as u32) << 2)
+  };
+  let check = |o: &mut Outcome, topic: &str, as_writer: bool, want: (bool, bool, bool, u32), said: String| -> Option<EndpointSecurityAttributes> {
+    let r = if as_writer { ac.get_datawriter_sec_attributes(handle, topic.to_string()) } else { ac.get_datareader_sec_attributes(handle, topic.to_string()) };
+    let a = match r {
+      Ok(a) => a,
+      Err(e) => {
+        o.violate("c17.governance-attributes", "endpoint:error", format!("attributes of topic {topic}: {e:?}"));
+        return None;
+      }
+    };
+    let got = (a.is_submessage_protected, a.is_payload_protected, a.is_key_protected, bits(&a.plugin_endpoint_attributes));
+    if got != want {
+      let which = if got.0 != want.0 {
+        if want.0 { "submessage-protection-dropped" } else { "submessage-protection-invented" }
+      } else if got.1 != want.1 {
+        if want.1 { "payload-protection-dropped" } else { "payload-protection-invented" }
+      } else {
+        "kind"
+      };
+      o.violate(
+        "c17.governance-attributes",
+        &format!("endpoint:{which}"),
+        format!("topic {topic} ({}): {said}; the plugin derives (submessage, payload, key, mask) = {got:x?}, the specification's mapping gives {want:x?}", if as_writer { "writer" } else { "reader" }),
+      );
+      return None;
+    }
+    Some(a)
+  };
+  let mut endpoints = Vec::new();
+  for (e, (meta, data)) in eps.iter().zip(&kinds) {
+    let a = match builtin_topic_of(e) {
+      // 7.4.8: the bootstrap topics and plain discovery are never protected by the governance
+      // document; the key-exchange topic is always encrypted (no origin authentication)
+      Some(t) if t == "DCPSParticipantVolatileMessageSecure" => check(o, t, false, (true, false, false, 0x8000_0001), "key exchange topic".to_string())?,
+      Some(t) => check(o, t, false, (false, false, false, 0x8000_0000), "bootstrap / plain discovery topic".to_string())?,
+      None => {
+        let t = format!("c17_{}", e.name);
+        let said = format!("governance says metadata={} data={}", KIND_NAMES[*meta], KIND_NAMES[*data]);
+        // the victim's side (reader or writer) and the peer's side must get the same answer
+        let a = check(o, &t, !e.is_reader, endpoint_want(*meta, *data), said.clone())?;
+        check(o, &t, e.is_reader, endpoint_want(*meta, *data), said)?;
+        a
+      }
+    };
+    endpoints.push(a);
+  }
+  // the secure built-in topics follow the domain rule (7.4.8)
+  for (t, k) in [
+    ("DCPSParticipantSecure", discovery_kind),
+    ("DCPSPublicationsSecure", discovery_kind),
+    ("DCPSSubscriptionsSecure", discovery_kind),
+    ("DCPSParticipantMessageSecure", liveliness_kind),
+  ] {
+    let (sp, se, so) = kind_means(k);
+    check(o, t, c.bool(), (sp, false, false, 0x8000_0000u32 | (se as u32) | (so as u32) << 2), format!("domain rule says {}", KIND_NAMES[k]))?;
+  }
+  o.label(if rtps_kind >= 3 || kinds.iter().any(|(m, _)| *m >= 3) { "governance:origin-authentication" } else { "governance:plain-kinds" });
+  Some(Governed { participant: pa, endpoints })
+}
+
 const PEER: u8 = 50;
 
 fn must<T, E: std::fmt::Debug>(r: Result<T, E>, what: &str) -> T {
@@ -182,7 +405,7 @@ struct Delivery {
   id: i64,
 }
 
-pub fn run(_scenario: u32, choices: &[u8], _strict: bool) -> Outcome {
+pub fn run(scenario: u32, choices: &[u8], _strict: bool) -> Outcome {
   let mut c = Choices::new(choices);
   let mut o = Outcome::new();
   let _g = CaseGuard::new();
@@ -267,6 +490,20 @@ pub fn run(_scenario: u32, choices: &[u8], _strict: bool) -> Outcome {
     slot: 0,
   });
 
+  let mut governance_sample = String::new();
+  let governed_attrs = if scenario == 1 {
+    match governed(&mut c, rtps, &eps, &mut o, &mut governance_sample) {
+      Some(g) => Some(g),
+      None => {
+        o.sample = governance_sample;
+        return o;
+      }
+    }
+  } else {
+    None
+  };
+  let participant_attributes = || governed_attrs.as_ref().map(|g| g.participant.clone()).unwrap_or_else(|| participant_attrs(rtps));
+
   // ---------------------------------------------------------------- the two plugin sets
   let vp = rig::node_prefix(0);
   let lp = rig::node_prefix(PEER);
@@ -276,8 +513,8 @@ pub fn run(_scenario: u32, choices: &[u8], _strict: bool) -> Outcome {
     p.verif_set_handles(vp, 1, 1);
     p.verif_set_handles(lp, 2, 2);
   }
-  must(pv.register_local_participant(vp, None, participant_attrs(rtps)), "register_local_participant");
-  must(pl.register_local_participant(lp, None, participant_attrs(rtps)), "register_local_participant");
+  must(pv.register_local_participant(vp, None, participant_attributes()), "register_local_participant");
+  must(pl.register_local_participant(lp, None, participant_attributes()), "register_local_participant");
   must(pv.register_matched_remote_participant(lp, pair_secret(1, 2)), "register_matched_remote_participant");
   must(pl.register_matched_remote_participant(vp, pair_secret(1, 2)), "register_matched_remote_participant");
   let t = must(pl.create_local_participant_crypto_tokens(vp), "participant tokens");
@@ -285,10 +522,10 @@ pub fn run(_scenario: u32, choices: &[u8], _strict: bool) -> Outcome {
   let t = must(pv.create_local_participant_crypto_tokens(lp), "participant tokens");
   must(pl.set_remote_participant_crypto_tokens(vp, t), "set participant tokens");
 
-  for e in &eps {
+  for (i, e) in eps.iter().enumerate() {
     let lg = GUID::new(vp, e.local);
     let rg = GUID::new(lp, e.remote);
-    let a = endpoint_attrs(e.sub, e.payload);
+    let a = governed_attrs.as_ref().map(|g| g.endpoints[i].clone()).unwrap_or_else(|| endpoint_attrs(e.sub, e.payload));
     if e.is_reader {
       must(pv.register_local_reader(lg, None, a.clone()), "register_local_reader");
       must(pl.register_local_writer(rg, None, a), "register_local_writer");
@@ -332,7 +569,7 @@ pub fn run(_scenario: u32, choices: &[u8], _strict: bool) -> Outcome {
   let ndg = 3 + c.pick(8);
   let mut next_id: BTreeMap<usize, i64> = BTreeMap::new();
   let mut sample = format!(
-    "rtps={rtps:?} endpoints={:?}",
+    "{governance_sample}rtps={rtps:?} endpoints={:?}",
     eps.iter().map(|e| (e.name, e.sub, e.payload)).collect::<Vec<_>>()
   );
   let mut seen: BTreeSet<(usize, i64)> = BTreeSet::new();
